@@ -560,6 +560,18 @@ func (db *DB) Create(o Object, s Schema) (err error) {
 	case err == nil:
 		s.initialize(db, o)
 
+		if err = es.isCompatibleWith(&s); err != nil {
+			return
+		}
+
+		// pending writes have to be flushed before asynchronous writes
+		// get disabled, otherwise they are not readable anymore
+		if es.asyncWritesEnabled() && !s.asyncWritesEnabled() {
+			if err = db.flushAll(o); err != nil {
+				return
+			}
+		}
+
 		// the schema is existing and we don't need to build a new one
 		// update existing schema with changes
 		if err = es.update(&s); err != nil {
